@@ -58,11 +58,6 @@ def _unk(desc):
   return ("unk", str(desc)[:60])
 
 
-_SHORTENING = {"removeprefix", "removesuffix", "strip", "lstrip", "rstrip", "replace",
-               "split", "rsplit", "partition", "rpartition", "lower", "upper", "title",
-               "capitalize", "format", "join", "translate", "splitlines", "casefold",
-               "center", "ljust", "rjust", "zfill", "expandtabs", "swapcase",
-               "format_map", "encode"}
 _PREDICATES = {"startswith", "endswith", "isidentifier", "isupper", "islower", "isalpha",
                "isalnum", "isdigit", "isspace", "istitle", "isascii", "isnumeric",
                "isdecimal", "isprintable", "count", "find", "rfind", "index", "rindex",
@@ -71,7 +66,7 @@ _PREDICATES = {"startswith", "endswith", "isidentifier", "isupper", "islower", "
 
 def _interesting(vals):
   for a in vals:
-    if a[0] in ("name", "node", "der"):
+    if a[0] in ("name", "node", "der", "unitrel"):
       return True
     if a[0] == "tuple" and any(_interesting(x) for x in a[1]):
       return True
@@ -424,29 +419,6 @@ class Spelling:
         return frozenset([_der(src(e)[:60])])
       return frozenset([_unk(src(e))])
     if isinstance(e, ast.BoolOp):
-      out = set()
-      reach = True
-      for i, x in enumerate(e.values):
-        v = self.eval(x, env)
-        last = i == len(e.values) - 1
-        stop = False if isinstance(e.op, ast.And) else True
-        ts = self.truth(v)
-        for a in v:
-          ta = self.truth([a])
-          if last or stop in ta:
-            # the operand is the result when it stops the chain (or is the last one)
-            if last:
-              out.add(a)
-            elif a[0] == "const":
-              out.add(a)
-            else:
-              out.add(a if ta == {stop} else a)
-        if (not stop) not in ts:
-          reach = False
-          break
-      del reach
-      # drop results that cannot be the outcome: for `and`, a non-last operand
-      # is the result only when falsy; for `or`, only when truthy
       return frozenset(self._boolop(e, env))
     if isinstance(e, ast.UnaryOp) and isinstance(e.op, ast.Not):
       return self._bools({not t for t in self.truth(self.eval(e.operand, env))})
@@ -508,8 +480,8 @@ class Spelling:
     if any(isinstance(a, ast.Starred) for a in e.args) or any(k.arg is None for k in e.keywords):
       vals = [self.eval(a.value if isinstance(a, ast.Starred) else a, env) for a in e.args]
       vals += [self.eval(k.value, env) for k in e.keywords]
-      return frozenset([_der(src(e)[:60])]) if any(_interesting(v) for v in vals) \
-          else frozenset([_unk(src(e))])
+      del vals
+      return frozenset([_unk(f"result of {src(e)[:50]}")])
     args = [self.eval(a, env) for a in e.args]
     kwargs = {k.arg: self.eval(k.value, env) for k in e.keywords}
     hot = any(_interesting(v) for v in args) or any(_interesting(v) for v in kwargs.values())
@@ -528,7 +500,7 @@ class Spelling:
       target, is_method = self.mod.functions[f.id], False
     if target is not None and hot:
       if target.decorator_list:
-        return frozenset([_der(f"{src(f)}(..) (decorated)")])
+        return frozenset([_unk(f"result of the decorated {src(f)}(..)")])
       if kwargs:
         names = [p.arg for p in target.args.args][1 if is_method else 0:]
         full = list(args)
@@ -538,7 +510,7 @@ class Spelling:
           else:
             break
         if kwargs:
-          return frozenset([_der(f"{src(f)}(..)")])
+          return frozenset([_unk(f"result of {src(e)[:50]}")])
         args = full
       res = self.call(target, args, is_method)
       where = f"{PV}.{target.name}" if is_method else target.name
@@ -549,11 +521,9 @@ class Spelling:
         if f.attr in _PREDICATES:
           return self._bools({True, False})
         fn = self._frame_name(e)
-        if f.attr == "removeprefix" and e.args and "self._unit" in src(e.args[0]) + "".join(
-            self._fstring_sources(e.args[0], env)):
+        if f.attr == "removeprefix" and e.args and "self._unit" in src(e.args[0]):
           return frozenset([("unitrel", src(e)[:70], fn)])
-        if f.attr in _SHORTENING or True:
-          return frozenset([_der(src(e)[:70], fn)])
+        return frozenset([_der(src(e)[:70], fn)])
       if hot and f.attr in ("join", "format", "format_map"):
         return frozenset([_der(src(e)[:70], self._frame_name(e))])
     if isinstance(f, ast.Name) and f.id in ("str", "repr", "sys.intern") and hot and len(args) == 1:
@@ -569,11 +539,6 @@ class Spelling:
       # what it hands back is unknown
       return frozenset([_unk(f"result of {src(e)[:50]}")])
     return frozenset([_unk(src(e))])
-
-  def _fstring_sources(self, e, env):
-    """Sources a name used in `e` was bound from (one level), for the
-    unit-prefix test."""
-    return []
 
   def _frame_name(self, node):
     fn = self.mod.enclosing_function(node)
@@ -685,9 +650,16 @@ VARIANTS = [
        "    if self.class_names and self.in_signature:\n"
        "      return text.rpartition(\".\")[2]\n    return text\n"),
     # behaviour-preserving spellings of the same printer
-    _v("twin-success-path-through-an-identity-helper", _SUCCESS,
-       "        else:\n          node_name = self._Unchanged(node.name)\n      else:\n"
-       , "silent"),
+    {"name": "twin-success-path-through-a-helper-that-keeps-the-name", "rule": "R20.25",
+     "expect": "silent",
+     "edits": [(PR, _SUCCESS,
+                "        else:\n          node_name = self._UnitLocalName(node)\n"
+                "      else:\n"),
+               (PR, "  def _GuessModule(self, maybe_module):\n",
+                "  def _UnitLocalName(self, node):\n"
+                "    if not node.name:\n      raise ValueError(node)\n"
+                "    full_name = node.name\n    return full_name\n\n"
+                "  def _GuessModule(self, maybe_module):\n")]},
     _v("twin-success-path-returns-directly", _SUCCESS,
        "        else:\n          return node.name\n      else:\n", "silent"),
     _v("twin-name-hoisted-into-a-local",
